@@ -20,14 +20,16 @@ func (e *Engine) checkAssert(st *State, th *Thread, cond *Term, label string) {
 	as.Solver++
 	e.Stats.AssertQ++
 	neg := e.tb.Not(cond)
-	e.findViolations(st, neg, label, "assertion "+label+" fails at "+e.where(th))
+	violated := e.findViolations(st, neg, label, "assertion "+label+" fails at "+e.where(th))
 	// continue the path under the assumption that the assertion holds
 	if cond.IsFalse() {
 		panic(killPath{"assert false"})
 	}
 	st.PC = e.tb.And(st.PC, cond)
-	if r := e.sol.Check(st.PC, nil); r == ResUnsat {
-		panic(killPath{"assert: no passing continuation"})
+	if violated {
+		if r := e.sol.Check(st.PC, nil); r == ResUnsat {
+			panic(killPath{"assert: no passing continuation"})
+		}
 	}
 }
 
@@ -62,7 +64,7 @@ func (e *Engine) facetList(st *State) ([]string, []*Term) {
 }
 
 // findViolations enumerates models of (pc ∧ bad), filtering the ones listed as known findings.
-func (e *Engine) findViolations(st *State, bad *Term, label, msg string) {
+func (e *Engine) findViolations(st *State, bad *Term, label, msg string) (violated bool) {
 	tb := e.tb
 	fnames, fterms := e.facetList(st)
 	recs := st.nondetList()
@@ -77,22 +79,47 @@ func (e *Engine) findViolations(st *State, bad *Term, label, msg string) {
 	for iter := 0; iter < 24; iter++ {
 		q := tb.And(bad, excl)
 		if q.IsFalse() {
-			return
+			return violated
 		}
-		res, m := e.sol.CheckModel(st.PC, q, extras...)
-		if res == ResUnknown {
+		if res := e.sol.Check(st.PC, q); res == ResUnknown {
 			e.inconclusive("solver unknown on assertion %s", label)
-			return
+			return violated
+		} else if res == ResUnsat {
+			return violated
 		}
-		if res == ResUnsat {
-			return
+		violated = true
+		// violated: prefer a counterexample with small buffers (replayable natively)
+		var m *Model
+		for _, lim := range []int64{64, 4096, 1 << 20, -1} {
+			small := tb.True
+			if lim >= 0 {
+				any := false
+				for _, r := range recs {
+					if r.Kind == "bytes" && !r.T.IsConst() {
+						small = tb.And(small, tb.SLe(r.T, tb.Int64(lim)))
+						any = true
+					}
+				}
+				if !any {
+					continue
+				}
+			}
+			r2, m2 := e.sol.CheckModel(st.PC, tb.And(q, small), extras...)
+			if r2 == ResSat {
+				m = m2
+				break
+			}
+		}
+		if m == nil {
+			e.inconclusive("solver could not reproduce a model for assertion %s", label)
+			return violated
 		}
 		v := &Violation{Label: label, Msg: msg, Facets: map[string]int64{}, state: st}
 		fv, err := m.Eval(fterms)
 		if err != nil {
 			m.Release()
 			e.inconclusive("model evaluation failed: %v", err)
-			return
+			return violated
 		}
 		for i, n := range fnames {
 			v.Facets[n] = sext(fv[i], fterms[i].W)
@@ -126,13 +153,13 @@ func (e *Engine) findViolations(st *State, bad *Term, label, msg string) {
 		e.Asserts[label].Violated++
 		if kf == nil {
 			e.addViolation(v)
-			return
+			return violated
 		}
 		v.Known = true
 		v.KnownAs = kf.What
 		e.addViolation(v)
 		if len(kf.Facets) == 0 {
-			return // the whole label is a known finding
+			return violated // the whole label is a known finding
 		}
 		// exclude this facet combination and look for a different violation
 		c := tb.True
@@ -145,6 +172,7 @@ func (e *Engine) findViolations(st *State, bad *Term, label, msg string) {
 		}
 		excl = tb.And(excl, tb.Not(c))
 	}
+	return violated
 }
 
 func (e *Engine) addViolation(v *Violation) {
